@@ -64,7 +64,13 @@ def write_evidence(path, prop, tier, seed, results, lemma_results, bounded, obli
         "bytes/bytearray/list[int] are (index->element, length) pairs; parameters and fresh objects are unaliased",
         "exceptions are outcomes; every modelled operation that can raise forks a raising path",
         "facts assumed by spec functions are one-step unfoldings of their definitions or lemmas proved in this run",
+        "untracked (opaque) values: attribute reads, item number i of an unmodified untracked sequence (ghost elem), isinstance() and `<` are "
+        "deterministic functions of the value; `<` is a strict total order only where a contract sets total_order (then stated as axioms); "
+        "membership in an untracked container is deterministic only for names a contract lists under immutable_sets (syntactic guard: never mutated)",
+        "ghost witness functions (LoopSpec.witness) and ghost markers (upred/ufi set only by trusted ghost contracts) are specification devices: "
+        "they constrain no executable value",
     ]
+
     if opaque:
         assumptions.append("callees without contract are over-approximated (unknown result, may raise any Exception, mutable arguments havocked): "
                            + ", ".join(sorted(opaque))[:1500])
